@@ -16,12 +16,12 @@ def add(pid, text, note, technique, ref=None):
 add("C10",
     "Coq theorems over an executable model of HallOfFame/ParetoFront (bisect_right binary search, eviction, "
     "domination filter): for every update history the hall holds exactly the smallest non-NaN keys offered, sorted, "
-    "ties in arrival order, fresh copies; for every interleaving of update/insert/remove/clear the ordering/NaN/"
-    "freshness invariant holds; the Pareto front is a permutation of the non-dominated offers and an antichain. "
+    "ties in arrival order, fresh copies; for every interleaving of update/insert/remove/clear (NaN keys and capacity 0 "
+    "included) the ordering/NaN/freshness invariant holds; the Pareto front is a permutation of the non-dominated offers and an antichain. "
     "The model is tied to bingo/stats/*.py by running both on the same generated operation histories and comparing "
     "inside Coq (vm_compute).",
     "Trusted: Coq kernel + vm_compute; the order embedding of non-NaN floats into Z; deepcopy = fresh id; the "
-    "Python harness. NaN via manual insert and capacity 0 are carved out (known findings F12a/F12b). Axiom-free.",
+    "Python harness. Manual inserts of NaN keys and capacity 0 are part of the histories (findings F12a/F12b, fixed). Axiom-free.",
     "Rocq/Coq proof by induction over operation histories + differential correspondence")
 
 add("C15",
